@@ -146,6 +146,7 @@ DoRecv(s0, ev, sid) ==
         sub == IF ev.esi < s0.k THEN {ev.esi} ELSE {}
     IN  [ s |-> [s1 EXCEPT !.cbs = s0.cbs \cup CbEsis(ev), !.everComplete = s0.everComplete \/ Complete(s1)],
           fails |-> F(s0.phase = "configured" /\ s0.role = "dec" /\ ~s0.finished, "INFRA", "driver-protocol")
+                    \cup F(IsBin(s0) => Len(s0.H) = s0.n - s0.k, "INFRA", "no-parity-check-equations-in-trace")
                     \cup F(ev.st = OK, "C10,C11", "recv-status")
                     \cup CbCheck(s0, ev, sid, Avail(s0), Avail(s1), s1.rcvd \cap Src(s0), {})
                     \cup Common(ev) ]
@@ -244,6 +245,8 @@ DoRelease(s0, ev) ==
 
 (* ---- encoder ------------------------------------------------------------ *)
 
+HaveEq(s0) == Len(s0.H) = s0.n - s0.k      \* the session's equations were observed (pchk_done hook / control block)
+
 (* value the configured code prescribes for repair symbol esi *)
 BinRepair(s0, ev) ==
     LET row == s0.H[ev.esi - s0.k + 1]
@@ -271,7 +274,7 @@ DoBuild(s0, ev) ==
         rep == s0.payload = "idr"
         valueOk ==
             IF ~has THEN s0.payload = "rnd"
-            ELSE IF IsBin(s0) THEN (BuiltBefore(s0, ev.esi) =>
+            ELSE IF IsBin(s0) THEN ((HaveEq(s0) /\ BuiltBefore(s0, ev.esi)) =>
                                       IF rep THEN RepBinOK(s0, ev.v, BinRepair(s0, ev)) ELSE Vec(ev.v) = BinRepair(s0, ev))
             ELSE IF rep THEN RepRsOK(s0, ev) ELSE RsRowOK(s0.codec, s0.m, s0.k, ev.esi, ev.v, s0.len)
         thisVec == IF rep THEN BaseVec(s0, ev.v) ELSE Vec(ev.v)
@@ -283,6 +286,7 @@ DoBuild(s0, ev) ==
     IN  [ s |-> [s0 EXCEPT !.built = b1],
           fails |-> F(s0.phase = "configured" /\ s0.role = "enc", "INFRA", "driver-protocol")
                     \cup F(rep => s0.npos >= s0.k, "INFRA", "driver-replicated-payload-shorter-than-k")
+                    \cup F(IsBin(s0) => HaveEq(s0), "INFRA", "no-parity-check-equations-in-trace")
                     \cup F(ev.st = OK, tag, "build-status")
                     \cup F(ev.st = OK => "o" \in DOMAIN ev /\ ev.o = (IF ev.slot = "null" THEN "lib" ELSE "app"), tag, "build-output-slot")
                     \cup F(ev.st = OK => valueOk, tag, "repair-symbol-not-canonical")
